@@ -287,7 +287,14 @@ func (m *runtimeContextManager) updateTimeUsed() {
 // cpuFactor arguments allows specifying an increased "weight" for cpu ticks.
 func (m *runtimeContextManager) LinearUnused(cpuFactor uint64) uint64 {
 	mem := m.UnusedMem()
-	cpu := m.UnusedCPU() * cpuFactor
+	cpu := m.UnusedCPU()
+	if hi, lo := bits.Mul64(cpu, cpuFactor); hi != 0 {
+		// With a very large limit the product does not fit: what is left is
+		// "a lot", not the few units the wrapped value says.
+		cpu = math.MaxUint64
+	} else {
+		cpu = lo
+	}
 	switch {
 	case cpu == 0:
 		return mem
